@@ -237,6 +237,22 @@ class Arr:
         return f"<Arr {self.kind} shape=({', '.join(map(str, self.shape))})" + (f" segs={len(self.segs)}" if self.segs else '') + ">"
 
 
+_INT_HEADS = ('N', 't', 'z', 'loop')
+
+
+def scalar_kind(r):
+    if not r.is_poly():
+        return 'real'
+    for a in r.atoms():
+        k = atom_key(a)
+        if not (isinstance(k, tuple) and k and k[0] in _INT_HEADS):
+            return 'real'
+    for c in r.num.t.values():
+        if c.denominator != 1:
+            return 'real'
+    return 'int'
+
+
 def scalar_arr(v, kind='real'):
     return Arr((), lambda idx: v, kind)
 
@@ -295,7 +311,7 @@ def snap(x) -> Arr:
     if isinstance(x, (Box, View)):
         return x.snap()
     if isinstance(x, Rat):
-        return scalar_arr(x)
+        return scalar_arr(x, scalar_kind(x))
     if isinstance(x, bool):
         return scalar_arr(Rat.const(1 if x else 0), 'bool')
     if isinstance(x, (int, Fraction)):
@@ -575,7 +591,7 @@ def _wrap_negative(ctx, k: Arr, L):
         if v.is_const() and v.const_value() < 0:
             return v + L
         return v
-    return Arr(k.shape, fn, 'int', affine=k.affine)
+    return Arr(k.shape, fn, 'int', affine=k.affine, tag=k.tag, segs=k.segs)
 
 
 # ----------------------------------------------------------------------------------------------
@@ -738,7 +754,8 @@ def _assign_advanced(ctx, box, items, val, lineno):
         else:
             enumerate_mode = True
     conc = None
-    if enumerate_mode and old.ndim == 1 and len(adv) == 1 and adv[0].ndim == 1 and adv[0].segs is not None:
+    if enumerate_mode and old.ndim == 1 and len(adv) == 1 and adv[0].ndim == 1 and (adv[0].segs is not None or adv[0].tag is not None) \
+            and adv[0].concrete_shape() is None:
         # scatter into a flat vector through an array of cell numbers: keep the write log only;
         # such vectors are read row-wise through the log (never by flat position)
         prev = old
@@ -815,6 +832,29 @@ def _assign_advanced(ctx, box, items, val, lineno):
 # ----------------------------------------------------------------------------------------------
 def elementwise(ctx, f, args, kind='real', origin=None):
     arrs = [snap(a) for a in args]
+    segd = [a for a in arrs if a.segs is not None and not all(s.ndim <= 1 for s in a.segs)]
+    if segd:
+        # flat (ravelled) operands: operate block by block, keep the block structure
+        n = len(segd[0].segs)
+        ok = all(a.ndim == 0 or (a.segs is not None and len(a.segs) == n) for a in arrs)
+        if ok:
+            for k in range(n):
+                shp = segd[0].segs[k].shape
+                for a in arrs:
+                    if a.ndim and (len(a.segs[k].shape) != len(shp) or any(not (x - y).is_zero() for x, y in zip(a.segs[k].shape, shp))):
+                        ok = False
+        if not ok:
+            # same total length but different block structure: numpy adds position by position; the
+            # element order of the blocks differs -> not modelled position-wise
+            raise AnalysisError("elementwise operation on flat arrays with different block structure")
+        segs = []
+        for k in range(n):
+            segs.append(elementwise(ctx, f, [a if a.ndim == 0 else a.segs[k] for a in arrs], kind, origin))
+        total = segd[0].shape[0]
+
+        def fnflat(idx):
+            raise AnalysisError("flat (ravelled) array read by position; only segment-wise access is modelled")
+        return Arr((total,), fnflat, kind, origin=origin, segs=segs)
     shape = broadcast_shapes(ctx, [a.shape for a in arrs])
     fns = [(a.at, a.shape) for a in arrs]
 
